@@ -1579,6 +1579,15 @@ class TLSConnection(TLSRecordLayer):
                             "Client certificate is of wrong type"):
                         yield result
 
+            cr_comp_cert_ext = certificate_request.getExtension(
+                ExtensionType.compress_certificate)
+            if cr_comp_cert_ext and not cr_comp_cert_ext.algorithms:
+                for result in self._sendError(
+                        AlertDescription.decode_error,
+                        "Empty algorithm list in compress_certificate "
+                        "extension"):
+                    yield result
+
             client_certificate = self._create_cert_msg(
                 "client", certificate_request,
                 settings.certificate_compression_send, clientCertChain,
